@@ -88,6 +88,7 @@ impl<'a> Iterator for TxOutIterator<'a> {
             let tx_out =
                 TxOut::parse(&self.tx_outs.slice[self.offset..]).expect("granted from parsing");
             self.offset += tx_out.consumed();
+            self.elements = self.elements.saturating_sub(1);
             Some(tx_out.parsed_owned())
         }
     }
